@@ -16,7 +16,14 @@ class slice_length:
 
 @contract('serif.vector.Vector.copy', props=['C07', 'C01', 'C18'])
 class copy:
+    c03 = True
     params = {'self': 'vector', 'new_values': 'alt:none|seq_any|gen_any', 'name': 'alt:ellipsis|name'}
+
+    def requires(self, new_values):
+        # C03: the values handed over belong to the vector's dtype (every call site proves this)
+        if new_values is None:
+            return S.truthful(self)
+        return all(S.truthful_elem(e, self._dtype) for e in new_values)
 
     def returns(self, new_values, name):
         return copy_spec(self, new_values, name)
@@ -29,10 +36,11 @@ from contracts.specs import getitem_spec, is_bool_mask  # noqa: E402
 class getitem:
     """C07: v[i] is the i-th element, v[slice] equals list slicing for every start/stop/step,
     v[mask] keeps exactly the True positions in order; dtype kind and name kept."""
+    c03 = True
     params = {'self': 'vector', 'key': 'alt:int|slice|boolvec|list_bool'}
 
-    def requires(key):
-        return isinstance(key, (int, slice)) or is_bool_mask(key)
+    def requires(self, key):
+        return S.truthful(self) and (isinstance(key, (int, slice)) or is_bool_mask(key))
 
     def _bad_index(self, key):
         return isinstance(key, int) and not (-len(self._underlying) <= key < len(self._underlying))
@@ -61,6 +69,7 @@ def _operand_ok(other):
 class elementwise_compare:
     """C06/C07: comparison is False at a None position, otherwise Python's own comparison of
     the i-th operands, result a non-nullable bool vector; unequal lengths raise."""
+    c03 = True
     params = {'self': 'vector', 'other': 'alt:vector|list_any|scalar', 'op': 'func2'}
 
     def requires(other):
@@ -234,6 +243,7 @@ class v_len:
 
 @contract('serif.vector.Vector.isna', props=['C06', 'C03'])
 class v_isna:
+    c03 = True
     params = {'self': 'vector'}
 
     def returns(self):
@@ -243,10 +253,67 @@ class v_isna:
 @contract('serif.vector.Vector.dropna', props=['C06', 'C03'])
 class v_dropna:
     """dropna removes exactly the positions isna marks and reports itself non-nullable."""
+    c03 = True
     params = {'self': 'vector'}
+
+    def requires(self):
+        return S.truthful(self)
 
     def returns(self):
         values = [x for x in self._underlying if x is not None]
         if self._dtype is None:
             return vec(values, None, None, False)
         return vec(values, DataType(self._dtype.kind, False), None, False)
+
+
+# ------------------------------------------------------------------ C05 broadcast methods / properties
+import inspect as _inspect  # noqa: E402
+import serif.vector as _sv  # noqa: E402
+
+
+@contract('serif.vector.MethodProxy.__call__', props=['C05', 'C06', 'C03'])
+class methodproxy_call:
+    """C05: v.method(*args) == [e.method(*args) for e], None staying None - for EVERY method name
+    (the name is a symbolic constant) and every argument bundle."""
+    params = {'self': 'methodproxy', 'args': 'opaque', 'kwargs': 'opaque'}
+
+    def returns(self, args, kwargs):
+        return S.broadcast_method_spec(self._vector._underlying, self._method_name, args, kwargs)
+
+
+def _make_wrapper(cls, mname, fn):
+    sig = _inspect.signature(fn)
+    has_var = any(p.kind == p.VAR_POSITIONAL for p in sig.parameters.values())
+
+    class spec:
+        params = {'self': 'vector', 'args': 'opaque', 'kwargs': 'opaque'} if has_var else {'self': 'vector'}
+        if has_var:
+            def returns(self, args, kwargs):
+                return S.broadcast_method_spec(self._underlying, mname, args, kwargs)
+        else:
+            def returns(self):
+                return S.broadcast_method_spec(self._underlying, mname, (), {})
+    spec.__name__ = f'{cls.__name__}_{mname}'
+    spec.__doc__ = f'C05: {cls.__name__}.{mname} broadcasts the element method of the same name.'
+    contract(f'serif.vector.{cls.__name__}.{mname}', props=['C05', 'C06'])(spec)
+
+
+_SPECIAL = {'__init__', '_elementwise_compare', '__add__', 'eomonth', 'before', 'after', 'before_last', 'after_last'}
+for _cls in (_sv._String, _sv._Date):
+    for _n, _f in list(_cls.__dict__.items()):
+        if callable(_f) and _n not in _SPECIAL and not _n.startswith('__'):
+            _make_wrapper(_cls, _n, _f)
+
+
+def _make_partition(mname, pm, idx):
+    class spec:
+        params = {'self': 'vector', 'sep': 'str'}
+
+        def returns(self, sep):
+            return vec_inferred([None if s is None else getattr(s, pm)(sep)[idx] for s in self._underlying], None, False)
+    spec.__name__ = f'_String_{mname}'
+    contract(f'serif.vector._String.{mname}', props=['C05', 'C06'])(spec)
+
+
+for _m, _pm, _ix in [('before', 'partition', 0), ('after', 'partition', 2), ('before_last', 'rpartition', 0), ('after_last', 'rpartition', 2)]:
+    _make_partition(_m, _pm, _ix)
